@@ -25,6 +25,13 @@ RULE = ('Per distribution family (standard normal, normal, lognormal, exponentia
         'bounded below (pareto, lomax, invgamma, fisk, burr12, genpareto, lognormal with sigma > 1.2; tail index >= 1.5, variance finite '
         'or infinite; random loc and scale): x at 6 quantiles 0.001 - 0.99999 and below the support; there the complementary values are compared '
         'with the defining integrals over [bottom of the support, x], all four values are checked for finiteness, sign and monotonicity. '
+        'pmf dicts: 1-8 distinct integer keys in 0..39 with probabilities in 64ths, in a quarter of the cases one or two more keys of probability 0, '
+        'inserted in ascending, descending, random or decreasing-probability order (the replay keeps the order). Negative binomial by (mean, sd): half '
+        'of the cases draw the two moments directly (mean a multiple of 1/4 or uniform in 0.5-40, variance/mean in 1.05-6, sd as is or rounded up to a '
+        'multiple of 1/4), so that the implied r is an arbitrary positive real; the other half derives them from (r, p) with r mostly an integer. '
+        'Call sequences (state carried from one distribution object to the next): 40% of the pmf / scipy-object cases are preceded, in the same process and '
+        'recorded in the case, by the evaluation of another distribution of the same kind -- a pmf with the same smallest and largest value, the same scipy '
+        'family with other parameters, a user-defined subclass with the same first support point (always). '
         'One case = one (family, parameters, x grid) with first- and second-order pairs. '
         'non-trivial = both n and nbar strictly positive at some grid point; distinct = distinct (family, parameters).')
 TOL = 1e-7
@@ -209,11 +216,23 @@ def o_discrete_family(o, rng, fam):
         c1 = lambda x: L.geometric_loss(x, p); c2 = lambda x: L.geometric_second_loss(x, p); lo = 1
     else:
         r = float(rng.randint(1, 12)) if rng.random() < .7 else rng.uniform(.5, 9); p = rng.uniform(.05, .9)
-        dist = stats.nbinom(r, p); lo = 0
+        lo = 0
         if fam == 'negative_binomial(r,p)':
+            dist = stats.nbinom(r, p)
             pars = dict(r=r, p=p); c1 = lambda x: L.negative_binomial_loss(x, r, p); c2 = lambda x: L.negative_binomial_second_loss(x, r, p)
         else:
-            mm, ss = float(dist.mean()), float(dist.std()); pars = dict(mean=mm, sd=ss)
+            # the two moments are the INPUT here (as when they are estimated from data): half of the cases draw (mean, sd) directly -- round numbers
+            # (multiples of 1/4) or uniform, any sd^2 > mean -- so that the implied r = mean^2 / (sd^2 - mean) is an arbitrary positive real (from
+            # 0.1 to 800); the other half derives them from an (r, p) pair with r mostly an integer. The oracle's distribution is the
+            # negative binomial that HAS these two moments.
+            if rng.random() < .5:
+                mm = rng.choice([rng.randint(2, 160) / 4, rng.uniform(.5, 40)])
+                ss = math.sqrt(mm * rng.uniform(1.05, 6))                         # variance / mean = 1 / p in [1.05, 6]
+                if rng.random() < .5: ss = math.ceil(4 * ss) / 4
+            else:
+                mm, ss = float(stats.nbinom(r, p).mean()), float(stats.nbinom(r, p).std())
+            pars = dict(mean=mm, sd=ss)
+            dist = stats.nbinom(mm * mm / (ss * ss - mm), mm / (ss * ss))
             c1 = lambda x: L.negative_binomial_loss(x, mean=mm, sd=ss); c2 = lambda x: L.negative_binomial_second_loss(x, mean=mm, sd=ss)
     case = dict(family=fam, **pars)
     mean, var = float(dist.mean()), float(dist.var()); sd = math.sqrt(var)
@@ -233,22 +252,35 @@ GENERIC_DISCRETE = ['randint', 'binom', 'hypergeom', 'betabinom', 'boltzmann', '
 # (zipf / yulesimon / zipfian-like power tails are left out: the direct summation used as the oracle would itself have to be truncated)
 
 
+def gen_discrete_params(rng, k):
+    if k == 'randint': lo = rng.randint(0, 8); return [lo, lo + rng.randint(1, 40)]
+    if k == 'binom': return [rng.randint(1, 60), rng.uniform(.05, .95)]
+    if k == 'hypergeom': M = rng.randint(5, 60); return [M, rng.randint(1, M), rng.randint(1, M)]
+    if k == 'betabinom': return [rng.randint(1, 40), rng.uniform(.3, 5), rng.uniform(.3, 5)]
+    if k == 'boltzmann': return [rng.uniform(.05, 1.5), rng.randint(2, 40)]
+    if k == 'planck': return [rng.uniform(.05, 1.5)]
+    if k == 'logser': return [rng.uniform(.1, .95)]
+    if k == 'nhypergeom': M = rng.randint(5, 40); n = rng.randint(1, M - 1); return [M, n, rng.randint(1, M - n)]
+    if k == 'poisson': return [rng.choice([rng.uniform(.3, 30), float(rng.randint(1, 30))])]
+    if k == 'geom': return [rng.uniform(.05, .9)]
+    if k == 'nbinom': return [rng.uniform(.5, 9), rng.uniform(.05, .9)]
+    return [rng.uniform(.1, .8), rng.randint(0, 6)]                              # user-defined subclass: geometric pmf on {start, start+1, ...}, as in the docstring of discrete_loss
+
+
 def gen_generic_discrete(rng):
     k = rng.choice(GENERIC_DISCRETE)
     loc = rng.choice([0, 0, rng.randint(1, 15), rng.randint(1, 15)])          # a frozen scipy distribution may be shifted; the documented domain is a non-negative support
-    if k == 'randint': lo = rng.randint(0, 8); a = [lo, lo + rng.randint(1, 40)]
-    elif k == 'binom': a = [rng.randint(1, 60), rng.uniform(.05, .95)]
-    elif k == 'hypergeom': M = rng.randint(5, 60); a = [M, rng.randint(1, M), rng.randint(1, M)]
-    elif k == 'betabinom': a = [rng.randint(1, 40), rng.uniform(.3, 5), rng.uniform(.3, 5)]
-    elif k == 'boltzmann': a = [rng.uniform(.05, 1.5), rng.randint(2, 40)]
-    elif k == 'planck': a = [rng.uniform(.05, 1.5)]
-    elif k == 'logser': a = [rng.uniform(.1, .95)]
-    elif k == 'nhypergeom': M = rng.randint(5, 40); n = rng.randint(1, M - 1); a = [M, n, rng.randint(1, M - n)]
-    elif k == 'poisson': a = [rng.choice([rng.uniform(.3, 30), float(rng.randint(1, 30))])]
-    elif k == 'geom': a = [rng.uniform(.05, .9)]; loc = rng.choice([-1, loc, loc])       # geom(p, loc=-1): number of failures, support from 0
-    elif k == 'nbinom': a = [rng.uniform(.5, 9), rng.uniform(.05, .9)]
-    else: a = [rng.uniform(.1, .8), rng.randint(0, 6)]; loc = 0                          # user-defined subclass: geometric pmf on {start, start+1, ...}, as in the docstring of discrete_loss
-    return k, a, loc
+    a = gen_discrete_params(rng, k)
+    if k == 'geom': loc = rng.choice([-1, loc, loc])                             # geom(p, loc=-1): number of failures, support from 0
+    elif k == 'custom-pmf': loc = 0
+    # call sequences: in 40% of the cases (always tried for the user-defined subclass, whose objects all carry scipy's default name) ANOTHER distribution
+    # of the same kind, with the same loc / the same bottom of the support but other parameters, is evaluated first in the same process
+    before = None
+    if k == 'custom-pmf' or rng.random() < .4:
+        before = gen_discrete_params(rng, k)
+        if k == 'custom-pmf': before[1] = a[1]
+        if before == a: before = None
+    return k, a, loc, before
 
 
 def mk_discrete(k, a, loc):
@@ -264,6 +296,9 @@ def mk_discrete(k, a, loc):
 def check_generic_discrete(o, case, rng=None):
     """case: family 'discrete-scipy:<kind>', parameters, loc [, xs]. Oracle = direct summation of the pmf over the true support."""
     k = case['family'].split(':', 1)[1]; L = lf()
+    if case.get('preceded_by'):                             # another distribution of the same kind is evaluated first (its values are examined in its own cases)
+        d0 = mk_discrete(k, case['preceded_by'], case['loc']); x0 = max(0, int(d0.support()[0])) + 2
+        o.call('discrete_loss(distrib)', L.discrete_loss, dict(case, x=x0), x0, d0); o.call('discrete_second_loss(distrib)', L.discrete_second_loss, dict(case, x=x0), x0, d0)
     dist = mk_discrete(k, case['parameters'], case['loc'])
     lo, hi = dist.support(); lo = int(lo)
     if math.isfinite(hi): hs = int(hi)
@@ -289,8 +324,8 @@ def check_generic_discrete(o, case, rng=None):
 
 
 def o_generic_discrete(o, rng):
-    k, a, loc = gen_generic_discrete(rng)
-    return check_generic_discrete(o, dict(family='discrete-scipy:' + k, parameters=a, loc=loc), rng)
+    k, a, loc, before = gen_generic_discrete(rng)
+    return check_generic_discrete(o, dict(family='discrete-scipy:' + k, parameters=a, loc=loc, **(dict(preceded_by=before) if before else {})), rng)
 
 
 # ---- arbitrary continuous distributions with a heavy right tail (finite mean, variance finite or infinite), support bounded below
@@ -381,30 +416,79 @@ def o_geometric_below_support(o, rng):
     return case, False
 
 
-def o_discrete_arbitrary(o, rng, model_cases):
-    """discrete_loss / discrete_second_loss with a pmf dict and with a scipy rv_discrete object built from the same pmf"""
+KEY_ORDERS = ['ascending', 'descending', 'shuffled', 'by-decreasing-probability']
+
+
+def gen_pmf_dict(rng):
+    """a pmf dict as a caller builds it: the support of gen_pmf (1-8 distinct integers in 0..39, probabilities multiples of 1/64), sometimes one or two
+    extra keys of probability 0 (a table that lists values which did not occur), inserted in ascending order (dict(zip(range ...))), descending order,
+    random order (Counter over a demand history) or by decreasing probability (most_common()). -> list of (key, Fraction) in insertion order"""
+    pmf = gen_pmf(rng)
+    if rng.random() < .25:
+        for k in rng.sample(range(0, 44), rng.randint(1, 2)): pmf.setdefault(k, Fraction(0))
+    order = rng.choice(KEY_ORDERS); items = sorted(pmf.items())
+    if order == 'descending': items.reverse()
+    elif order == 'shuffled': rng.shuffle(items)
+    elif order == 'by-decreasing-probability': items.sort(key=lambda kv: (-kv[1], rng.random()))
+    return order, items
+
+
+def gen_pmf_between(rng, lo, hi):
+    """like gen_pmf, but with smallest key lo and largest key hi (lo < hi)"""
+    n = rng.randint(2, min(8, hi - lo + 1))
+    vals = sorted([lo, hi] + rng.sample(range(lo + 1, hi), n - 2))
+    cuts = sorted(rng.sample(range(1, 64), n - 1))
+    return {v: Fraction(b - a, 64) for v, a, b in zip(vals, [0] + cuts, cuts + [64])}
+
+
+def pmf_objects(pmf_case):
     from scipy import stats
+    items = [(int(k), F(v)) for k, v in pmf_case.items()]
+    pmf = dict(items); fp = {k: float(v) for k, v in items}                    # fp keeps the insertion order of the case
+    ks = sorted(k for k in pmf if pmf[k] > 0)
+    return pmf, fp, ks, stats.rv_discrete(values=(ks, [fp[k] for k in ks]))
+
+
+def check_discrete_arbitrary(o, case, rng, model_cases=None):
+    """discrete_loss / discrete_second_loss with a pmf dict and with a scipy rv_discrete object built from the same pmf.
+    case: family 'discrete', key_order, pmf = dict in the caller's INSERTION order {str(key): probability (dyadic)} [, xs]"""
     L = lf()
-    pmf = gen_pmf(rng); fp = {k: float(v) for k, v in pmf.items()}
-    ks = sorted(pmf); dist = stats.rv_discrete(values=(ks, [fp[k] for k in ks]))
-    case = dict(family='discrete', pmf={str(k): v for k, v in pmf.items()})
+    if case.get('preceded_by'):                             # call sequence: a DIFFERENT distribution with the same smallest and largest value is evaluated first (all four
+        _p0, fp0, ks0, d0 = pmf_objects(case['preceded_by'])                   # forms; its values are examined in its own case) -- every rv_discrete(values=...) carries the same default name
+        x0 = ks0[0] + 1
+        for sig0, f0, a0 in (('discrete_loss(distrib)', L.discrete_loss, (x0, d0)), ('discrete_second_loss(distrib)', L.discrete_second_loss, (x0, d0)),
+                             ('discrete_loss(pmf)', L.discrete_loss, (x0, None, fp0)), ('discrete_second_loss(pmf)', L.discrete_second_loss, (x0, None, fp0))):
+            o.call(sig0, f0, dict(case, x=x0), *a0)
+    pmf, fp, ks, dist = pmf_objects(case['pmf'])
     mean = sum(k * v for k, v in pmf.items()); var = sum(k * k * v for k, v in pmf.items()) - mean ** 2
-    xs = sorted({ks[0] - 2, ks[0], ks[-1], ks[-1] + 3} | {rng.randint(ks[0] - 1, ks[-1] + 1) for _ in range(6)})
+    if 'xs' not in case:
+        case = dict(case, xs=sorted({ks[0] - 2, ks[0], ks[-1], ks[-1] + 3} | {rng.randint(ks[0] - 1, ks[-1] + 1) for _ in range(6)}))
+    xs = case['xs']
     def t1(x): return (float(sum(v * max(k - x, 0) for k, v in pmf.items())), float(sum(v * max(x - k, 0) for k, v in pmf.items())))
     def t2(x): return (float(sum(v * max(k - x, 0) * (max(k - x, 0) - 1) for k, v in pmf.items()) / 2), float(sum(v * max(x - k, 0) * (max(x - k, 0) + 1) for k, v in pmf.items()) / 2))
     gen1 = lambda x: o.call('discrete_loss(distrib)', L.discrete_loss, dict(case, x=x), x, dist) if x >= 0 else None
     gen2 = lambda x: o.call('discrete_second_loss(distrib)', L.discrete_second_loss, dict(case, x=x), x, dist) if x >= 0 else None
     res1 = {}; res2 = {}
     def c1(x):
-        res1[x] = o.call('discrete_loss(pmf)', L.discrete_loss, dict(case, x=x), x, None, fp); return res1[x]
+        res1[x] = o.call('discrete_loss(pmf)', L.discrete_loss, dict(case, x=x), x, None, dict(fp)); return res1[x]
     def c2(x):
-        res2[x] = o.call('discrete_second_loss(pmf)', L.discrete_second_loss, dict(case, x=x), x, None, fp); return res2[x]
+        res2[x] = o.call('discrete_second_loss(pmf)', L.discrete_second_loss, dict(case, x=x), x, None, dict(fp)); return res2[x]
     sd = math.sqrt(float(var)) if var > 0 else 1.0
     nt = family_check(o, 'discrete_loss(pmf)', case, xs, c1, gen1, t1, float(mean), discrete=True, scale=sd, gen_tol=1e-9)
     family_check(o, 'discrete_second_loss(pmf)', case, xs, c2, gen2, t2, float(mean), second=True, var=float(var), discrete=True, scale=sd, gen_tol=1e-9)
     if model_cases is not None:
         model_cases.append((case, pmf, [(x, res1.get(x), res2.get(x)) for x in xs[:5]]))
     return case, nt
+
+
+def o_discrete_arbitrary(o, rng, model_cases):
+    order, items = gen_pmf_dict(rng)
+    case = dict(family='discrete', key_order=order, pmf={str(k): v for k, v in items})
+    lo, hi = min(k for k, v in items if v > 0), max(k for k, v in items if v > 0)
+    if hi - lo >= 2 and rng.random() < .4:                  # call sequence: preceded by another pmf on the same range [lo, hi]
+        other = gen_pmf_between(rng, lo, hi)
+        if other != {k: v for k, v in items if v > 0}: case['preceded_by'] = {str(k): v for k, v in sorted(other.items())}
+    return check_discrete_arbitrary(o, case, rng, model_cases)
 
 
 def malformed(o, rng):
@@ -485,7 +569,8 @@ def translate_and_build(chk):
 
 
 def run_tie(chk, n):
-    cases = [(q, gen_args(q, chk.rng)) for q in C09_TRANSLATED for _ in range(n)]
+    # a function that no longer translates is already recorded (chk.broken) by translate_and_build; the others are still tied, and the oracles still run
+    cases = [(q, gen_args(q, chk.rng)) for q in C09_TRANSLATED for _ in range(n) if q in py2v.FUNCS]
     for q, a in cases: chk.case(dict(function=q, args=a), False)
     return tie.run_tie(chk, cases, tag='c09tie')
 
@@ -530,6 +615,9 @@ def replay(chk, rp):
     if fam.startswith('discrete-scipy:') or fam.startswith('continuous-heavy-tail:'):       # these cases carry everything needed: re-run exactly the recorded one
         c = {k: v for k, v in case.items() if k != 'x'}
         c, _nt = check_generic_discrete(o, c, chk.rng) if fam.startswith('discrete-scipy:') else check_heavy_tail(o, c)
+        chk.case(c); return
+    if fam == 'discrete' and isinstance(case.get('pmf'), dict):
+        c, _nt = check_discrete_arbitrary(o, {k: v for k, v in case.items() if k != 'x'}, chk.rng)      # the recorded dict, in its recorded insertion order
         chk.case(c); return
     for _ in range(40):
         if fam in [f for f, _ in FAMILIES]: c, _nt = o_continuous_family(o, chk.rng, fam)
